@@ -261,6 +261,19 @@ func RunProcCase(seed int64, o ProcOpts) *HistResult {
 	tCancelBeats := beats.Load()
 	tCancel := time.Now()
 	if o.ViaShutdown {
+		if seed%2 == 0 {
+			// escalation: a graceful shutdown is already waiting for the job when the forced one is issued
+			go func() { _ = sys.Shutdown(4, context.Background(), "graceful") }()
+			for i := 0; i < 2000; i++ {
+				if _, cls := sys.Schedule(8, "no-such-pipeline-probe", nil, "probe"); cls == "shutting-down" {
+					break
+				}
+				time.Sleep(100 * time.Microsecond)
+			}
+			res.sit("C20", "forced shutdown issued while a graceful one waits")
+			tCancelBeats = beats.Load()
+			tCancel = time.Now()
+		}
 		ctx, cancel := context.WithCancel(context.Background())
 		cancel()
 		go func() { _ = sys.Shutdown(0, ctx, "forced") }()
@@ -516,12 +529,28 @@ func RunProcGapCase(seed int64, workDir string, variant int) *HistResult {
 		return res
 	}
 	deadline := time.Now().Add(15 * time.Second)
+	inGap := true
 	for {
 		if p, _ := sys.Parked(id); p {
 			break
 		}
+		if j, ok := sys.ReadJob(id); ok {
+			if t := j.Task("second"); t != nil && t.Status != "waiting" {
+				// the first task ended while the loop was in the middle of a pass, which then launched the second task at
+				// once: the gap was never visible at an iteration top. Canceling now (second task running, background
+				// command of the first alive) is a legitimate instant as well.
+				inGap = false
+				break
+			}
+		}
 		if time.Now().After(deadline) {
-			res.Inconclusive = "the loop did not reach the gap between the two tasks"
+			j, _ := sys.ReadJob(id)
+			var sts []string
+			for _, t := range j.Tasks {
+				sts = append(sts, fmt.Sprintf("%s=%s(err=%v %s)", t.Name, t.Status, t.Errored, t.Error))
+			}
+			c, lc := sys.IterCount(id)
+			res.Inconclusive = fmt.Sprintf("the loop did not reach the gap between the two tasks: job completed=%v canceled=%v error=%q tasks %v iterations=%d lastChange=%d", j.Completed, j.Canceled, j.LastError, sts, c, lc)
 			sys.SetParkAll(nil)
 			return res
 		}
@@ -529,7 +558,12 @@ func RunProcGapCase(seed int64, workDir string, variant int) *HistResult {
 	}
 	sys.SetParkAll(nil)
 	up := len(scanMarked(mark))
-	res.sit("C20", fmt.Sprintf("canceled in the gap between two tasks, background command of the first task: %d processes up, via shutdown=%v, script %d", min(up, 2), viaShutdown, variant%3))
+	for i := 0; i < 1000 && up == 0; i++ {
+		time.Sleep(2 * time.Millisecond) // the background command was started but may not have been exec'ed yet
+		up = len(scanMarked(mark))
+	}
+	_ = inGap
+	res.sit("C20", fmt.Sprintf("canceled in the gap between two tasks (gap visible at an iteration top: %v), background command of the first task: %d processes up, via shutdown=%v, script %d", inGap, min(up, 2), viaShutdown, variant%3))
 	res.Evaluations["C20"]++
 	if up == 0 {
 		res.Inconclusive = "the background command of the first task is not running in the gap"
